@@ -636,3 +636,42 @@ MANIFEST_TEXT_EXTRA['C15']['note'] = (
     'MAX_STRIDE_SIZE; hand models + correspondence runs (the ascii.rs stride kernels are modelled as per-unit loops, at memory level as per-unit stores); '
     'std conversions used as oracle. "Bytes beyond `written` untouched" is a theorem about the model of the default kernels only; the simd-accel build '
     'violates it (open finding F5, printed as KNOWN-FINDING).')
+# --- agent-corB: C12 lifted to call histories (Thm/C12Hist.lean, Thm/C12State.lean); C11: Encoding::encode terminates
+# (Thm/C11EncTerm.lean).  Overrides of the entries above.
+PROPS_EXTRA['C12']['thm_modules'] = ['EncodingRs.Thm.C12', 'EncodingRs.Thm.C12Hist', 'EncodingRs.Thm.C12State']
+PROPS_EXTRA['C12']['partial'] = [
+    'call histories are covered by theorems now (Thm/C12Hist.lean, Thm/C12State.lean: history_output_prefix, complete_history_output, has_pending_iff_history / has_pending_iff_repl_history, history_decodes_complete); the histories are over the encoder MODEL (EHist / EReplHist: Model.erunI / Model.encRepl calls with arbitrary stop budgets) - that every call of the implementation is such a call is the enc correspondence',
+    'raw API: the byte stream considered is the manual procedure (bytes + the numeric character reference appended at each Unmappable; history_output_prefix_raw) or a history in which nothing was reported unmappable so far (history_output_prefix_no_unmappable); a caller who writes NOTHING for Unmappable produces a different stream, which output / expected do not describe and which for ISO-2022-JP is not even error-free (the encoder returns to ASCII before reporting Unmappable so that the reference is legal; with nothing written the next escape sequence follows immediately and the decoder reports the doubled escape: examples at the end of Thm/C12Hist.lean, confirmed on the real crate) - the documentation of EncoderResult::Unmappable obliges the caller to append a placeholder',
+]
+PROPS_EXTRA['C12']['assumptions'] = [a for a in PROPS_EXTRA['C12']['assumptions'] if not a.startswith('the byte stream is the one produced with replacement')] + [
+    'the byte stream is the one produced with replacement (encode_from_utf8/utf16) or by the documented manual procedure over the raw API: every Unmappable(u) is followed by ncr u (subst = C09Enc.manualBytes, manualBytes_eq_subst; = C03 erefHtml, output_eq_erefHtml)',
+    'a history (EHist / EReplHist) is any sequence of calls made so far: chunks at character boundaries given as source items resp. source buffers of either form, any capacities / stop budgets, `last` calls get everything that is left; it may end after any call',
+]
+MANIFEST_TEXT_EXTRA['C12']['text'] = MANIFEST_TEXT_EXTRA['C12']['text'].replace(
+    ' Proof: generic feedAll_ref',
+    ' Call histories (Thm/C12Hist.lean, Thm/C12State.lean): history_output_prefix / history_output_prefix_raw - for each of the 40 encodings, every text and EVERY history of encode_from_utf8/utf16 calls (EReplHist) resp. raw calls with the manual procedure (EHist) made so far - any chunks, source forms, capacities, stop decisions, ending after ANY call, e.g. one that returned OutputFull between an ISO-2022-JP escape sequence and its character - the bytes written so far are a byte prefix of the reference output (output v text = bytes ++ reference output of what is left from the current state: hist_sound / repl_hist_sound on top of C04 erunI_sound and C09Enc encRepl_sound) and hence decode, followed by anything, without an error event to a prefix of expected v text; complete_history_output(_raw) / boundary_of_complete_history: after the final call of a protocol-following history (C09Enc EReplProto / C04 EProto) the bytes are exactly output v text and decode to expected v text; manualBytes_eq_subst / output_eq_manual / output_eq_erefHtml connect output with C09 manualBytes and C03 erefHtml; has_pending_iff_history / has_pending_iff_repl_history: after every call of every ISO-2022-JP history the decoder accepts the bytes so far and is in the escape state of the encoder (CorrW), has_pending_state() <-> that state is not ASCII - via hist_pos (after any history the events are the unstopped run over a text prefix followed by a partial processing of the next character, Mid, or by the end-of-stream block), iso_mid_cases (inside a character at most one escape sequence, the one into the current state), iso_esc_feed, and repl_hist_is_hist / go_hist (a history of with-replacement calls IS a history of raw calls whose manual-procedure bytes are the bytes written); final_not_pending; history_decodes_complete(_raw): for all 40 encodings the bytes written so far by any history, taken on their own as a COMPLETE stream, decode without any error event - none at the end of the stream either, also when the history stops between an escape sequence and its character - to a prefix of expected v text. Proof: generic feedAll_ref')
+MANIFEST_TEXT_EXTRA['C12']['note'] = (
+    'Trusted additionally: native_decide for 42 finite per-character obligations (listed in the evidence); the decoder families and ncr are hand models tied by the dec / enc correspondences. '
+    'The reference-run theorems are lifted to every call history of the encoder model, raw and with replacement (C12Hist, C12State); the model calls are tied to the implementation by the enc correspondence and the real-decoder oracle after every call.')
+MANIFEST_TEXT_EXTRA['C12']['technique'] = MANIFEST_TEXT_EXTRA['C12']['technique'].replace(
+    'state-correspondence invariant for ISO-2022-JP)', 'state-correspondence invariant for ISO-2022-JP, induction over call histories)')
+
+PROPS_EXTRA['C11']['thm_modules'] = ['EncodingRs.Thm.C11', 'EncodingRs.Lemmas.OneShotCap', 'EncodingRs.Lemmas.OneShotEnc', 'EncodingRs.Thm.C11EncTerm']
+PROPS_EXTRA['C11']['assumptions'] = [
+    ('the loops are modelled with fuel; for the decode functions the fuel 10*len+10 is proved sufficient for every admissible policy (decode_without_bom_handling_cap_returns); for encode the fuel len+2 is proved sufficient for every admissible policy under the length precondition 204*len+142 <= usize::MAX (Thm/C11EncTerm.lean encodeV_terminates; EncodeVAdmissible: every inner raw call of every round is admissible for the part of the spare capacity it is offered)'
+     if a.startswith('the loops are modelled with fuel') else a)
+    for a in PROPS_EXTRA['C11']['assumptions']]
+PROPS_EXTRA['C11']['partial'] = [
+    'termination and panic-freedom of Encoding::encode are theorems now (Thm/C11EncTerm.lean: encodeLoop_outcome, encodeV_terminates, encode_terminates, encodeV_panic_length, encodeV_total) under the length precondition 204*len+142 <= usize::MAX, which is sufficient, not sharp (the constant comes from the crude output bound 11*(9*len+4)); encodeLoop_wrap_diverges shows that SOME length bound is needed for termination as well: when max_buffer_length_from_utf8_if_no_unmappables(len) exceeds 2^63 the unchecked next_power_of_two wraps to 0 in a release build and the loop repeats without progress (len > 2^61 on a 64-bit target; see notes/NOTES-corB.md for the 32-bit reading) - a statement about the model, not exercised on the implementation',
+    'equality with the *sniffing / BOM-removing streaming Decoder* (life cycle of C10): decode_eq_sniff / decode_with_bom_removal_eq reduce the one-shot BOM handling to the streaming decoder WITHOUT BOM handling of the encoding used on the input after the BOM; sniff_single_call / remove_*_single_call prove that the life-cycle model Decoder.rawCall fed the whole input in ONE last call hands exactly that decoder and that slice on; other chunkings of the sniffing decoder are C10 and are compared by the harness oracle (one call and 7-byte chunks) on every generated input',
+    'the capacity-aware decode functions are not run by the driver (it runs the budget-parametrised ones under the never-stop policy, which the `...Cap` functions refine): the capacities themselves are tied to the code through the C07 correspondence (max_* answers in every reached state), not through a C11 operation line',
+    'pointer aliasing of a borrow is observed (harness), not proved']
+MANIFEST_TEXT_EXTRA['C11']['note'] = (
+    'Trusted: Lean kernel (+ the native_decide table evaluations inherited from C07 / C03, listed in the evidence); translator (Encoding initialisers, tables, max_* formulas); '
+    'hand models of the variant decoders / encoders + relational call models (correspondence runs); Spec/Utf8.lean, Spec/Encode.lean; validators assumed exact (C14); '
+    'alloc behaves as documented. Termination and panic-freedom of the encode loop are proved under a (sufficient, not sharp) length precondition. Not proved: pointer aliasing (observed), '
+    'the tie to the BOM-sniffing streaming life cycle beyond a single call (C10; oracle).')
+MANIFEST_TEXT_EXTRA['C11']['text'] = MANIFEST_TEXT_EXTRA['C11']['text'].replace(
+    'Non-vacuity: an admissible policy with an OutputFull round',
+    'THIRD ROUND (Thm/C11EncTerm.lean) - Encoding::encode returns: encodeLoop_outcome / encodeV_terminates / encode_terminates (for every output encoding, every valid &str with 204*len+142 <= usize::MAX, every allocator slack and EVERY admissible stop policy of the inner raw calls, the model returns ok for every fuel >= len+2: each round offers at least max_buffer_length_from_utf8_if_no_unmappables(rest) spare bytes - the first allocation, and re-established by every reserve_exact - so by C07 enc_repl_sufficient_had an OutputFull round replaced something and therefore consumed >= 1 unit, encRepl_outputFull_read_pos: at most len+1 rounds; the capacity never overflows because an OutputFull return left at most 13 bytes unused, encRepl_outputFull_filled, so the capacity is bounded by the output whatever the allocator granted), encodeV_panic_length (a panic outcome implies usize::MAX < 204*len+142, no fuel hypothesis), encodeV_total (returns AND equals the reference), encodeLoop_wrap_diverges (without a length bound the unchecked next_power_of_two can wrap to 0 and the loop diverges), executable admissibility checker encodeVAdmissibleB (proved sound) with a kernel-evaluated run that has an OutputFull round and a reserve_exact. '
+    'Non-vacuity: an admissible policy with an OutputFull round')
